@@ -59,7 +59,13 @@ def add_out(outs, spec, out):
 CANCEL_AFTER = [0, 1, 500, 5000, 20000, 40000, 90000]
 
 
-def gen_send_op(r, driver, cats=None, p_error=0.15, allow_cancel=False):
+def gen_send_op(r, driver, cats=None, p_error=0.15, allow_cancel=False, p_unsupported=0.0):
+    if p_unsupported and driver in ("tridonic", "hasseb") and r.random() < p_unsupported:
+        # a frame length the gateway cannot carry, with every form of the exceptions option:
+        # it has to be refused at once, whatever the retry policy
+        bits = r.choice([24, 24, 8] if driver == "hasseb" else [8, 25, 32])
+        return {"kind": "send", "cmd": [bits, r.getrandbits(bits), 0], "outs": {}, "unsupported": True,
+                "exceptions": r.choice([None, True, False, False]), "gap_us": r.choice([0, 0, 50, 1000])}
     spec = cmds.gen_cmd(r, cats or driver_cats(driver))
     outs = {}
     add_out(outs, spec, gen_outcome(r, cmds.mk_cmd(spec), p_error))
@@ -148,7 +154,7 @@ def gen_callers(r, driver, ncallers, maxops, mix=(0.45, 0.15, 0.4), **kw):
                 ops.append(gen_parallel_op(r, driver, kw.get("cats"), kw.get("p_error", 0.15)))
             elif x < mix[0]:
                 ops.append(gen_send_op(r, driver, kw.get("cats"), kw.get("p_error", 0.15),
-                                       kw.get("cancel_sends", False)))
+                                       kw.get("cancel_sends", False), kw.get("unsupported", 0.0)))
             elif x < mix[0] + mix[1]:
                 ops.append(gen_locked_op(r, driver, kw.get("cats"), kw.get("p_error", 0.15),
                                          kw.get("cancel_sends", False)))
